@@ -99,6 +99,15 @@ def enc_key(c):
     return ('c', c.index, c.subscript)
 
 
+def _stat_ticked(tab, b, n):
+    "what Tableau.stat() says about (branch, node): ticked?"
+    try:
+        fl = tab.stat(b, n, Tableau.StatKey.FLAGS)
+        return tab.flag.TICKED in fl
+    except KeyError:
+        return False
+
+
 def has_quit(br):
     return any(n.get('flag') == 'quit' for n in br)
 
@@ -131,6 +140,7 @@ def state(tab, ids, full):
             'quit': int(has_quit(b)),
             'tickstep': [[ids.node(n), _tickstep(tab, b, n)] for n in b
                          if b.is_ticked(n) and _tickstep(tab, b, n) >= 0],
+            'stat_ticked': [ids.node(n) for n in b if _stat_ticked(tab, b, n)],
         })
     st['branches'] = brs
     st['open'] = [index[id(b)] for b in tab.open]
